@@ -37,6 +37,12 @@ type Case struct {
 	BodyGen string     `json:"bodyGen,omitempty"` // large bodies are regenerated: "zeros:N", ...
 	Abandon int        `json:"abandon,omitempty"` // > 0: read this many bytes, then Close
 	Note    string     `json:"note,omitempty"`
+	// Globals, when set, is an indirect stream (object 7 0) which the
+	// JBIG2Decode stage of the case refers to as /JBIG2Globals: its filters
+	// are run by GetFilters (ReadAll with a cap of 8 MiB) before the caller
+	// gets a reader at all.  SelfRef makes the globals stream refer to itself.
+	Globals *Case `json:"globals,omitempty"`
+	SelfRef bool  `json:"selfRef,omitempty"`
 	body    []byte
 }
 
@@ -49,15 +55,68 @@ type Rec struct {
 	AllocKB  int    `json:"allocKB"`
 	CapBytes int    `json:"capBytes"`
 	Leaked   int    `json:"leaked"`
+	AllowKB  int    `json:"allowKB"` // documented extra working memory of a bounded consumer (JBIG2 globals: ReadAll up to 8 MiB)
 	Class    string `json:"class"`
 	Note     string `json:"note,omitempty"`
 	out      []byte
 }
 
-type getter struct{ meta pdf.MetaInfo }
+type getter struct {
+	meta pdf.MetaInfo
+	objs map[pdf.Reference]pdf.Native
+}
 
-func (g *getter) GetMeta() *pdf.MetaInfo                          { return &g.meta }
-func (g *getter) Get(pdf.Reference, bool) (pdf.Native, error) { return nil, nil }
+func (g *getter) GetMeta() *pdf.MetaInfo { return &g.meta }
+func (g *getter) Get(ref pdf.Reference, _ bool) (pdf.Native, error) {
+	return g.objs[ref], nil
+}
+
+var globalsRef = pdf.NewReference(7, 0)
+
+// globalsAllowKB: the globals are read into memory up to
+// limits.MaxJBIG2GlobalsBytes (8 MiB) with an amortised growing buffer.
+const globalsAllowKB = 8 * 8192
+
+func streamDict(c *Case) pdf.Dict {
+	dict := pdf.Dict{}
+	if c.Filter.T != "none" {
+		dict["Filter"] = c06.ToObject(c.Filter)
+	}
+	if c.Parms.T != "none" {
+		dict["DecodeParms"] = c06.ToObject(c.Parms)
+	}
+	return dict
+}
+
+// addGlobalsRef puts /JBIG2Globals 7 0 R into the parameters of the
+// JBIG2Decode stage of dict.
+func addGlobalsRef(dict pdf.Dict) {
+	switch f := dict["Filter"].(type) {
+	case pdf.Name:
+		d, _ := dict["DecodeParms"].(pdf.Dict)
+		if d == nil {
+			d = pdf.Dict{}
+		}
+		d["JBIG2Globals"] = globalsRef
+		dict["DecodeParms"] = d
+	case pdf.Array:
+		pa, _ := dict["DecodeParms"].(pdf.Array)
+		for len(pa) < len(f) {
+			pa = append(pa, nil)
+		}
+		for i, n := range f {
+			if n == pdf.Name("JBIG2Decode") {
+				d, _ := pa[i].(pdf.Dict)
+				if d == nil {
+					d = pdf.Dict{}
+				}
+				d["JBIG2Globals"] = globalsRef
+				pa[i] = d
+			}
+		}
+		dict["DecodeParms"] = pa
+	}
+}
 
 var theGetter = &getter{meta: pdf.MetaInfo{Version: pdf.V1_7}}
 
@@ -170,12 +229,18 @@ func (c *Case) Body() []byte {
 // caller runs the cases strictly one after the other).
 func measureOnce(c *Case, body []byte, keep, isolate bool) (rec Rec) {
 	rec = Rec{RawLen: len(body), Class: c.Class, CapBytes: capFor(c)}
-	dict := pdf.Dict{}
-	if c.Filter.T != "none" {
-		dict["Filter"] = c06.ToObject(c.Filter)
-	}
-	if c.Parms.T != "none" {
-		dict["DecodeParms"] = c06.ToObject(c.Parms)
+	dict := streamDict(c)
+	g := theGetter
+	if c.Globals != nil {
+		gdict := streamDict(c.Globals)
+		if c.Globals.SelfRef {
+			addGlobalsRef(gdict)
+		}
+		gbody := c.Globals.Body()
+		g = &getter{meta: theGetter.meta, objs: map[pdf.Reference]pdf.Native{globalsRef: pdf.NewStream(gdict, gbody)}}
+		addGlobalsRef(dict)
+		rec.RawLen += len(gbody)
+		rec.AllowKB = globalsAllowKB
 	}
 	stm := pdf.NewStream(dict, body)
 	buf := make([]byte, 32<<10)
@@ -197,7 +262,7 @@ func measureOnce(c *Case, body []byte, keep, isolate bool) (rec Rec) {
 				rec.Note = fmt.Sprint(p)
 			}
 		}()
-		r, err := pdf.DecodeStream(theGetter, nil, stm)
+		r, err := pdf.DecodeStream(g, nil, stm)
 		if err != nil {
 			rec.Outcome, rec.Note = classify(err)
 			return
@@ -268,6 +333,9 @@ func classify(err error) (string, string) {
 // measure runs the case under a watchdog; a hit is re-run before it counts.
 func measure(c *Case, keep, isolate bool) Rec {
 	body := c.Body() // generated here, never inside the measured window
+	if c.Globals != nil {
+		c.Globals.Body()
+	}
 	budget := 20*time.Second + time.Duration(len(body))*20*time.Microsecond
 	for attempt := 0; ; attempt++ {
 		done := make(chan Rec, 1)
